@@ -126,7 +126,7 @@ func runC12(tier string) int {
 		}
 	}
 	gen(nil)
-	vals := []string{"A", "B", "1", "Z", ""} // "" = the switch is given with an empty value (-s V=): it matches no label
+	vals := []string{"A", "B", "1", "Z", "", "A ", " B"} // "" = the switch is given with an empty value (-s V=): it matches no label; neither does a value with a space around a label's spelling (values are compared as given)
 	type job struct {
 		pos  int
 		list int
